@@ -12,7 +12,8 @@ Section SelInvDef.
   Let K := v_fkeys (sel_view s).
   Let P := v_pending (sel_view s).
 
-  (* mq = the log position consumed; records up to mq have been applied:
+  (* dict backend only (the maildir sync is a full rescan and needs no such bookkeeping):
+     mq = the log position consumed; records up to mq have been applied:
      - a message whose last record is an update at q <= mq is in the view with
        exactly its current flags,
      - a message whose last record is an expunge at q <= mq is gone from the
@@ -20,7 +21,8 @@ Section SelInvDef.
   Record SelInv : Prop := MkSelInv {
     si_sorted : ssorted V;
     si_seqs : seqs_ok (v_seqs (sel_view s)) V;
-    si_mq : exists mq, sel_modseq s = Some mq /\ (mq <= ms_highest (mb_log b))%N
+    si_mq : mb_md b = false ->
+        exists mq, sel_modseq s = Some mq /\ (mq <= ms_highest (mb_log b))%N
         /\ (forall u q, log_last (mb_log b) u = Some (q, true) -> (q <= mq)%N ->
                In u V /\ forall m, mb_alive u b = Some m -> aget u K = Some (m_flags m))
         /\ (forall u q, log_last (mb_log b) u = Some (q, false) -> (q <= mq)%N ->
@@ -28,15 +30,19 @@ Section SelInvDef.
     si_known : forall u, In u V -> known b u;
     si_pending : forall u, In u P -> known b u /\ ~ In u (mb_uids b);
     si_larger : forall u, In u (mb_uids b) -> ~ In u V -> forall v, In v V -> (v < u)%N;
-    si_kdom : forall u, aget u K <> None -> In u V }.
+    si_kdom : forall u, aget u K <> None -> In u V;
+    si_fkeys : forall u, In u V -> aget u K <> None;
+    si_knd : NoDup (akeys K) }.
 End SelInvDef.
 
 (* other sessions' (and the own) operations on the mailbox do not disturb it *)
 Lemma sel_stable b b' s : BoxInv b -> BoxInv b' -> BoxLe b b' -> SelInv b s -> SelInv b' s.
 Proof.
-  intros I I' Le S. destruct (si_mq _ _ S) as (mq & Hm & Hle & H3 & H4).
+  intros I I' Le S.
   constructor; try apply S.
-  - exists mq. split; [exact Hm|]. split; [pose proof (le_high _ _ Le); lia|]. split.
+  - intros Md'. rewrite (le_md _ _ Le) in Md'.
+    destruct (si_mq _ _ S Md') as (mq & Hm & Hle & H3 & H4).
+    exists mq. split; [exact Hm|]. split; [pose proof (le_high _ _ Le); lia|]. split.
     + intros u q L Hq. destruct (le_last _ _ Le u q true L) as [L0|L0]; [|lia].
       destruct (H3 u q L0 Hq) as [Hin Hf]. split; auto. intros m' A'.
       assert (Au : In u (mb_uids b)) by (apply (bi_alive _ I); eauto).
@@ -58,7 +64,7 @@ Qed.
 Lemma SelInv_ext b s s' : sel_view s' = sel_view s -> sel_modseq s' = sel_modseq s ->
   SelInv b s -> SelInv b s'.
 Proof.
-  intros Ev Em S. destruct S as [A B C D E F G].
+  intros Ev Em S. destruct S as [A B C D E F G H I0].
   constructor; rewrite ?Ev, ?Em; auto.
 Qed.
 
@@ -116,25 +122,26 @@ Section Sync.
   Variables (b : mbox) (s : selected).
   Hypothesis IB : BoxInv b.
   Hypothesis S : SelInv b s.
+  Hypothesis Md : mb_md b = false.
 
   Let V := v_sorted (sel_view s).
   Let s' := sync b s.
   Let V' := v_sorted (sel_view s').
 
-  Lemma sync_facts :
+  Lemma sync_facts_dict :
     SelInv b s'
     /\ (sel_hide s = true -> incl V V')
     /\ (forall u v, In u V' -> ~ In u V -> In v V -> (v < u)%N)
     /\ (sel_hide s = false -> (forall u, In u V' <-> In u (mb_uids b)) /\ v_pending (sel_view s') = [])
     /\ (forall u m, mb_alive u b = Some m -> In u V' -> aget u (v_fkeys (sel_view s')) = Some (m_flags m))
-    /\ sel_modseq s' = Some (ms_highest (mb_log b))
+    /\ (mb_md b = false -> sel_modseq s' = Some (ms_highest (mb_log b)))
     /\ sel_hide s' = sel_hide s /\ sel_box s' = sel_box s /\ sel_readonly s' = sel_readonly s
     /\ sel_prev s' = sel_prev s /\ sel_silenced s' = sel_silenced s
     /\ (forall u, In u (sel_recent s') -> In u (sel_recent s)).
   Proof.
-    destruct (si_mq _ _ S) as (mq & Hm & Hle & H3 & H4).
+    destruct (si_mq _ _ S Md) as (mq & Hm & Hle & H3 & H4).
     pose proof (bi_log _ IB) as LI.
-    unfold V', s' in *. unfold sync. rewrite Hm.
+    unfold V', s' in *. unfold sync. rewrite Md, Hm.
     destruct (ms_find_updated mq (mb_log b)) as [U E] eqn:FU.
     pose proof (find_updated_spec mq (mb_log b)) as Spec.
     assert (SU : forall u, In u U <-> exists q, log_last (mb_log b) u = Some (q, true) /\ (mq <= q)%N).
@@ -183,7 +190,7 @@ Section Sync.
       destruct (vrp_same E v1) as (Es & Eq & Ek).
       split; [|split; [|split; [|split; [discriminate|split; [|repeat split; auto]]]]].
       + constructor; cbn [sel_view sel_modseq]; rewrite ?Es, ?Eq, ?Ek; auto.
-        * exists (ms_highest (mb_log b)). split; [reflexivity|]. split; [lia|]. split.
+        * intros _. exists (ms_highest (mb_log b)). split; [reflexivity|]. split; [lia|]. split.
           -- intros u q L _. assert (Au : In u (mb_uids b)) by (apply (bi_alive _ IB); eauto).
              apply mb_alive_In in Au. destruct (mb_alive u b) as [m|] eqn:A; [|congruence].
              destruct (Fresh u m A) as [F1 F2]. split; auto. intros m' A'. congruence.
@@ -200,6 +207,11 @@ Section Sync.
           apply Ealive, Hu.
         * intros u A Hn. exfalso. apply Hn. apply mb_alive_In in A.
           destruct (mb_alive u b) as [m|] eqn:Am; [|congruence]. apply (Fresh u m Am).
+        * intros u Hu. destruct (in_dec N.eq_dec u U) as [HU|HU].
+          -- pose proof (Ualive u HU) as Au. apply mb_alive_In in Au.
+             destruct (mb_alive u b) as [m|] eqn:Am; [|congruence]. rewrite (K1in u m HU Am). discriminate.
+          -- rewrite (K1out u HU). apply (si_fkeys _ _ S). apply In1 in Hu. tauto.
+        * apply vu_knd, (si_knd _ _ S).
       + intros _ u Hu. rewrite Es. apply In1. left; exact Hu.
       + rewrite Es. intros u v Hu Hn Hv. apply In1 in Hu as [Hu|Hu]; [tauto|].
         apply (si_larger _ _ S u (Ualive u Hu) Hn v Hv).
@@ -228,7 +240,7 @@ Section Sync.
       + constructor; cbn [sel_view sel_modseq]; fold v2.
         * apply vr_ssorted, S1.
         * apply vr_seqs_ok; auto.
-        * exists (ms_highest (mb_log b)). split; [reflexivity|]. split; [lia|]. split.
+        * intros _. exists (ms_highest (mb_log b)). split; [reflexivity|]. split; [lia|]. split.
           -- intros u q L _. assert (Au : In u (mb_uids b)) by (apply (bi_alive _ IB); eauto).
              split; [apply Conv, Au|]. intros m A. rewrite (K2 u Au). apply (Fresh u m A).
           -- intros u q L _. left. rewrite Conv. intros A. apply (bi_alive _ IB) in A as [q' A]. congruence.
@@ -246,6 +258,10 @@ Section Sync.
              { intros Hg. assert (existsb (fun u0 => nmem u0 (v_sorted v1)) (E ++ v_pending v1) = true); [|congruence].
                apply existsb_exists. exists u. split; auto. apply nmem_In, H. }
              rewrite in_app_iff in Hn. tauto.
+        * intros u Hu. apply Conv in Hu. pose proof Hu as Au. apply mb_alive_In in Au.
+          destruct (mb_alive u b) as [m|] eqn:Am; [|congruence].
+          rewrite (K2 u Hu), (proj2 (Fresh u m Am)). discriminate.
+        * apply vr_knd, vu_knd, (si_knd _ _ S).
       + intros u v Hu Hn Hv. fold v2 in Hu. apply Conv in Hu. apply (si_larger _ _ S u Hu Hn v Hv).
       + intros _. fold v2. split; [exact Conv|apply vr_pending].
       + fold v2. intros u m A Hu. assert (Au : In u (mb_uids b)) by (apply Conv, Hu).
@@ -253,6 +269,137 @@ Section Sync.
       + intros u Hu. apply ndiff_In in Hu. tauto.
   Qed.
 End Sync.
+
+(* maildir: update_selected rescans and calls set_messages *)
+Section SyncMd.
+  Variables (b : mbox) (s : selected).
+  Hypothesis IB : BoxInv b.
+  Hypothesis S : SelInv b s.
+  Hypothesis Md : mb_md b = true.
+
+  Let V := v_sorted (sel_view s).
+  Let s' := sync b s.
+  Let V' := v_sorted (sel_view s').
+
+  Lemma sync_facts_md :
+    SelInv b s'
+    /\ (sel_hide s = true -> incl V V')
+    /\ (forall u v, In u V' -> ~ In u V -> In v V -> (v < u)%N)
+    /\ (sel_hide s = false -> (forall u, In u V' <-> In u (mb_uids b)) /\ v_pending (sel_view s') = [])
+    /\ (forall u m, mb_alive u b = Some m -> In u V' -> aget u (v_fkeys (sel_view s')) = Some (m_flags m))
+    /\ (mb_md b = false -> sel_modseq s' = Some (ms_highest (mb_log b)))
+    /\ sel_hide s' = sel_hide s /\ sel_box s' = sel_box s /\ sel_readonly s' = sel_readonly s
+    /\ sel_prev s' = sel_prev s /\ sel_silenced s' = sel_silenced s
+    /\ (forall u, In u (sel_recent s') -> In u (sel_recent s)).
+  Proof.
+    unfold V', s' in *. unfold sync. rewrite Md.
+    set (msgs := map (fun m => (m_uid m, m_flags m)) (mb_msgs b)).
+    set (E := ndiff (v_sorted (sel_view s)) (mb_uids b)).
+    assert (Mfst : map fst msgs = mb_uids b).
+    { unfold msgs, mb_uids. rewrite map_map. reflexivity. }
+    assert (SE : forall u, In u E <-> In u V /\ ~ In u (mb_uids b)).
+    { intros u. unfold E. apply ndiff_In. }
+    unfold add_updates.
+    cbn [sel_view sel_hide sel_modseq sel_box sel_readonly sel_prev sel_silenced sel_recent].
+    set (v0 := sel_view s).
+    set (v1 := view_update msgs v0).
+    assert (S1 : ssorted (v_sorted v1)) by (apply vu_ssorted; apply S).
+    assert (Q1 : seqs_ok (v_seqs v1) (v_sorted v1)) by (apply vu_seqs_ok; apply S).
+    assert (In1 : forall u, In u (v_sorted v1) <-> In u V \/ In u (mb_uids b)).
+    { intros u. unfold v1. rewrite vu_In by apply S. rewrite Mfst. reflexivity. }
+    assert (P1 : v_pending v1 = v_pending v0) by (apply vu_pending).
+    assert (Fresh : forall u m, mb_alive u b = Some m ->
+                                In u (v_sorted v1) /\ aget u (v_fkeys v1) = Some (m_flags m)).
+    { intros u m A. assert (Au : In u (mb_uids b)) by (apply mb_alive_In; congruence).
+      split; [apply In1; auto|]. apply vu_fkeys_in.
+      - rewrite Mfst. apply ssorted_NoDup, (bi_sorted _ IB).
+      - unfold msgs. apply find_msg_Some in A as [A1 A2]. apply in_map_iff. exists m. split; auto.
+        rewrite A1. reflexivity. }
+    assert (K1dom : forall u, aget u (v_fkeys v1) <> None -> In u (v_sorted v1)).
+    { intros u H. apply In1. apply vu_kdom in H as [H|H]; [right; rewrite <- Mfst; exact H|left; apply (si_kdom _ _ S), H]. }
+    assert (K1all : forall u, In u (v_sorted v1) -> aget u (v_fkeys v1) <> None).
+    { intros u Hu. destruct (in_dec N.eq_dec u (mb_uids b)) as [A|A].
+      - apply mb_alive_In in A. destruct (mb_alive u b) as [m|] eqn:Am; [|congruence].
+        rewrite (proj2 (Fresh u m Am)). discriminate.
+      - unfold v1. rewrite vu_fkeys_out by (rewrite Mfst; exact A).
+        apply (si_fkeys _ _ S). apply In1 in Hu. tauto. }
+    assert (Mq : mb_md b = false -> False) by (rewrite Md; discriminate).
+    destruct (sel_hide s) eqn:Hh.
+    - destruct (vrp_same E v1) as (Es & Eq & Ek).
+      split; [|split; [|split; [|split; [discriminate|split; [|split; [intros K; first [discriminate K | destruct (Mq K)]|repeat split; auto]]]]]].
+      + constructor; cbn [sel_view sel_modseq]; rewrite ?Es, ?Eq, ?Ek; auto.
+        * intros K; first [discriminate K | destruct (Mq K)].
+        * intros u Hu. apply In1 in Hu as [Hu|Hu]; [apply (si_known _ _ S), Hu|apply alive_known; auto].
+        * intros u Hu. apply vrp_pending in Hu as [Hu|Hu]; [rewrite P1 in Hu; apply (si_pending _ _ S), Hu|].
+          apply SE in Hu as [Hv Hn]. split; [apply (si_known _ _ S), Hv|exact Hn].
+        * intros u A Hn. exfalso. apply Hn, In1. auto.
+        * apply vu_knd, (si_knd _ _ S).
+      + intros _ u Hu. rewrite Es. apply In1. left; exact Hu.
+      + rewrite Es. intros u v Hu Hn Hv. apply In1 in Hu as [Hu|Hu]; [tauto|].
+        apply (si_larger _ _ S u Hu Hn v Hv).
+      + rewrite Es, Ek. intros u m A _. apply (Fresh u m A).
+    - set (v2 := view_remove E false v1).
+      assert (In2 : forall u, In u (v_sorted v2) <-> In u (v_sorted v1) /\ ~ In u E /\ ~ In u (v_pending v1)).
+      { intros u. apply vr_In. }
+      assert (Conv : forall u, In u (v_sorted v2) <-> In u (mb_uids b)).
+      { intros u. rewrite In2. split.
+        - intros (H1 & H2 & H3). apply In1 in H1 as [H1|H1]; auto.
+          destruct (in_dec N.eq_dec u (mb_uids b)) as [A|A]; auto. exfalso. apply H2, SE. auto.
+        - intros A. split; [apply In1; auto|]. split.
+          + intros Hu. apply SE in Hu. tauto.
+          + rewrite P1. intros Hu. apply (si_pending _ _ S) in Hu as [_ Hu]. auto. }
+      assert (K2 : forall u, In u (mb_uids b) -> aget u (v_fkeys v2) = aget u (v_fkeys v1)).
+      { intros u A. apply vr_fkeys.
+        - intros Hu. apply SE in Hu. tauto.
+        - rewrite P1. intros Hu. apply (si_pending _ _ S) in Hu as [_ Hu]. auto. }
+      split; [|split; [discriminate|split; [|split; [|split; [|split; [intros K; first [discriminate K | destruct (Mq K)]|repeat split; auto]]]]]].
+      + constructor; cbn [sel_view sel_modseq]; fold v2.
+        * apply vr_ssorted, S1.
+        * apply vr_seqs_ok; auto.
+        * intros K; first [discriminate K | destruct (Mq K)].
+        * intros u Hu. apply alive_known; auto. apply Conv, Hu.
+        * intros u Hu. unfold v2 in Hu. rewrite vr_pending in Hu. destruct Hu.
+        * intros u A Hn. exfalso. apply Hn, Conv, A.
+        * intros u H. unfold v2, view_remove in H.
+          destruct (existsb (fun u0 => nmem u0 (v_sorted v1)) (E ++ v_pending v1)) eqn:Ex;
+            cbn [v_fkeys] in H.
+          -- apply (aget_filter_keys_inv (fun k => negb (nmem k (E ++ v_pending v1)))) in H as [H1 H2].
+             apply In2. apply negb_true_iff, nmem_false in H1. rewrite in_app_iff in H1.
+             split; [apply K1dom, H2|tauto].
+          -- apply K1dom in H. apply In2. split; auto.
+             assert (Hn : ~ In u (E ++ v_pending v1)).
+             { intros Hg. assert (existsb (fun u0 => nmem u0 (v_sorted v1)) (E ++ v_pending v1) = true); [|congruence].
+               apply existsb_exists. exists u. split; auto. apply nmem_In, H. }
+             rewrite in_app_iff in Hn. tauto.
+        * intros u Hu. apply Conv in Hu. pose proof Hu as Au. apply mb_alive_In in Au.
+          destruct (mb_alive u b) as [m|] eqn:Am; [|congruence].
+          rewrite (K2 u Hu), (proj2 (Fresh u m Am)). discriminate.
+        * apply vr_knd, vu_knd, (si_knd _ _ S).
+      + intros u v Hu Hn Hv. fold v2 in Hu. apply Conv in Hu. apply (si_larger _ _ S u Hu Hn v Hv).
+      + intros _. fold v2. split; [exact Conv|apply vr_pending].
+      + fold v2. intros u m A Hu. assert (Au : In u (mb_uids b)) by (apply Conv, Hu).
+        rewrite (K2 u Au). apply (Fresh u m A).
+      + intros u Hu. apply ndiff_In in Hu. tauto.
+  Qed.
+End SyncMd.
+
+Lemma sync_facts b s : BoxInv b -> SelInv b s ->
+  let s' := sync b s in
+  let V := v_sorted (sel_view s) in
+  let V' := v_sorted (sel_view s') in
+  SelInv b s'
+  /\ (sel_hide s = true -> incl V V')
+  /\ (forall u v, In u V' -> ~ In u V -> In v V -> (v < u)%N)
+  /\ (sel_hide s = false -> (forall u, In u V' <-> In u (mb_uids b)) /\ v_pending (sel_view s') = [])
+  /\ (forall u m, mb_alive u b = Some m -> In u V' -> aget u (v_fkeys (sel_view s')) = Some (m_flags m))
+  /\ (mb_md b = false -> sel_modseq s' = Some (ms_highest (mb_log b)))
+  /\ sel_hide s' = sel_hide s /\ sel_box s' = sel_box s /\ sel_readonly s' = sel_readonly s
+  /\ sel_prev s' = sel_prev s /\ sel_silenced s' = sel_silenced s
+  /\ (forall u, In u (sel_recent s') -> In u (sel_recent s)).
+Proof.
+  intros IB S. pose proof (sync_facts_md b s IB S) as A. pose proof (sync_facts_dict b s IB S) as B.
+  cbn zeta. destruct (mb_md b); [apply A|apply B]; reflexivity.
+Qed.
 
 (* the first update_selected of a fresh SelectedMailbox loads everything *)
 Lemma sync_first b s : BoxInv b ->
@@ -262,7 +409,18 @@ Lemma sync_first b s : BoxInv b ->
   /\ sel_hide s' = false /\ sel_box s' = sel_box s /\ sel_readonly s' = sel_readonly s
   /\ sel_prev s' = sel_prev s /\ sel_silenced s' = sel_silenced s /\ sel_recent s' = sel_recent s.
 Proof.
-  intros IB Hm Hv Hh. cbn zeta. unfold sync. rewrite Hm. unfold add_updates, with_modseq.
+  intros IB Hm Hv Hh. cbn zeta. unfold sync. rewrite Hm, Hv.
+  assert (E0 : ndiff (v_sorted view_empty) (mb_uids b) = []) by reflexivity. rewrite E0.
+  assert (Same : forall s0, sel_view s0 = view_empty -> sel_hide s0 = false ->
+            (mb_md b = false -> sel_modseq s0 = Some (ms_highest (mb_log b))) ->
+            sel_box s0 = sel_box s -> sel_readonly s0 = sel_readonly s -> sel_prev s0 = sel_prev s ->
+            sel_silenced s0 = sel_silenced s -> sel_recent s0 = sel_recent s ->
+            let s' := add_updates (map (fun m => (m_uid m, m_flags m)) (mb_msgs b)) [] s0 in
+            SelInv b s' /\ v_sorted (sel_view s') = mb_uids b
+            /\ sel_hide s' = false /\ sel_box s' = sel_box s /\ sel_readonly s' = sel_readonly s
+            /\ sel_prev s' = sel_prev s /\ sel_silenced s' = sel_silenced s /\ sel_recent s' = sel_recent s);
+    [|destruct (mb_md b) eqn:Md; [apply Same; auto; discriminate|apply Same; auto]].
+  clear Hm Hv Hh. intros s0 Hv Hh Hmq Hb Hr Hp Hsi Hrc. cbn zeta. unfold add_updates.
   cbn [sel_view sel_hide sel_modseq sel_box sel_readonly sel_prev sel_silenced sel_recent].
   rewrite Hv, Hh.
   set (msgs := map (fun m => (m_uid m, m_flags m)) (mb_msgs b)).
@@ -289,7 +447,7 @@ Proof.
       rewrite A1. reflexivity. }
   split; [|repeat split; auto].
   - constructor; cbn [sel_view sel_modseq v_sorted v_seqs v_fkeys v_pending]; auto.
-    + exists (ms_highest (mb_log b)). split; [reflexivity|]. split; [lia|]. split.
+    + intros Md. exists (ms_highest (mb_log b)). split; [apply Hmq, Md|]. split; [lia|]. split.
       * intros u q L _. split; [apply In1, (bi_alive _ IB); eauto|apply Kin].
       * intros u q L _. left. rewrite In1. intros A. apply (bi_alive _ IB) in A as [q' A]. congruence.
     + intros u Hu. apply alive_known; auto. apply In1, Hu.
@@ -297,5 +455,8 @@ Proof.
     + intros u A Hn. exfalso. apply Hn, In1, A.
     + intros u H. apply vu_kdom in H as [H|H]; [apply In1; rewrite <- Mfst; exact H|].
       exfalso. apply H. reflexivity.
-  - unfold ndiff. apply filter_all. intros; reflexivity.
+    + intros u Hu. apply In1 in Hu. apply mb_alive_In in Hu.
+      destruct (mb_alive u b) as [m|] eqn:Am; [|congruence]. rewrite (Kin u m Am). discriminate.
+    + apply vu_knd. constructor.
+  - rewrite Hrc. unfold ndiff. apply filter_all. intros; reflexivity.
 Qed.
